@@ -97,7 +97,11 @@ def group_events_using_async_information(
             async_groups[async_event_types[event.event_type]].append(event)
         else:
             non_async_groups.append([event])
-    groups = list(async_groups.values()) + non_async_groups
+    # a configured group none of whose event types occur among these events
+    # has no members and must not be sequenced
+    groups = [
+        group for group in async_groups.values() if group
+    ] + non_async_groups
     return groups
 
 
